@@ -6,6 +6,7 @@ import (
 	"time"
 
 	"github.com/google/uuid"
+	"massnet.org/mass/fractal/connection"
 	"massnet.org/mass/fractal/protocol"
 
 	"verifharness/vh"
@@ -77,6 +78,32 @@ func special(d *drv, mode string, rec *vh.Rec) {
 		time.Sleep(50 * time.Millisecond)
 		ev["handed"] = l.count(nameUUID("task", "t1", d.w.seed))
 		ev["res"] = "ok"
+	case "BadFrame":
+		// a peer sends one frame the codec refuses and keeps sending: the pool must drop it and go on serving
+		conn, cancel, err := connection.NewConn(connection.DialAddress(d.addr), connection.KeepaliveInterval(0))
+		if err != nil {
+			ev["res"] = "dial: " + err.Error()
+			return
+		}
+		waitFor(2*time.Second, func() bool { return d.pool.Count() == 1 })
+		conn.Send(d.ctx, []byte{0xff, 0xff, 'x'})
+		good := enc(d.w.reportMsg(d.helloID, "target", "p1"))
+		for i := 0; i < 14; i++ {
+			sctx, c := context.WithTimeout(d.ctx, 200*time.Millisecond)
+			conn.SendPriority(sctx, good)
+			c()
+		}
+		time.Sleep(300 * time.Millisecond)
+		cnt := -1
+		ev["count_prompt"] = within(2*time.Second, func() { cnt = int(d.pool.Count()) })
+		ev["count"] = cnt
+		within(2*time.Second, cancel)
+		ev["connect_after"] = "not tried"
+		if cnt >= 0 {
+			ev["connect_after"] = d.connect("r1")
+		}
+		ev["res"] = "ok"
+		ev["prompt"] = within(3*time.Second, d.stopPl)
 	case "PoolStop":
 		ev["res"] = "ok"
 		ev["prompt"] = within(2*time.Second, d.stopPl)
